@@ -227,8 +227,9 @@ pub fn string_enum(g: &mut G, c: &Ctx) -> Value {
 }
 
 pub fn typed_enum(g: &mut G, c: &Ctx) -> Value {
-    let _ = c;
-    match g.below(3) {
+    // boolean enums are not generated: typify ignores `enum` on booleans
+    // (known finding KF-005)
+    match if c.cfg.wide { g.below(3) } else { [0usize, 2][g.below(2)] } {
         0 => {
             let mut v: Vec<i64> = (0..1 + g.below(4)).map(|_| g.range(-5, 300)).collect();
             v.sort();
@@ -259,6 +260,7 @@ pub fn leaf(g: &mut G, c: &Ctx) -> Value {
         if cfg.any { 1 } else { 0 },        // any
         if cfg.wide { 1 } else { 0 },       // null
         if cfg.wide { 1 } else { 0 },       // const
+        if cfg.enforced { 2 } else { 0 },   // not:{enum} deny list
     ]) {
         0 => string_schema(g, c),
         1 => integer_schema(g, c),
@@ -275,11 +277,20 @@ pub fn leaf(g: &mut G, c: &Ctx) -> Value {
             }
         }
         8 => json!({"type": "null"}),
-        _ => {
+        9 => {
             if g.chance(1, 2) {
                 json!({"const": g.pick(ENUM_VALUES)})
             } else {
                 json!({"type": "integer", "const": g.range(0, 9)})
+            }
+        }
+        _ => {
+            // deny list
+            let vals = vec![g.pick(ENUM_VALUES).to_string(), g.pick(ENUM_VALUES).to_string()];
+            if g.chance(2, 3) {
+                json!({"type": "string", "not": {"enum": vals}})
+            } else {
+                json!({"not": {"enum": vals}})
             }
         }
     }
@@ -452,7 +463,8 @@ fn tag_values(g: &mut G, n: usize) -> Vec<String> {
 }
 
 fn closed_object(g: &mut G, c: &Ctx, depth: usize, fixed: Vec<(String, Value)>, close: bool, unnamed: bool) -> Value {
-    let n = g.below(3);
+    // closed tag-only variants of internally tagged unions: known finding KF-006
+    let n = if close && unnamed && !fixed.is_empty() { 1 + g.below(2) } else { g.below(3) };
     let taken: Vec<String> = fixed.iter().map(|(k, _)| heck_snake(k)).collect();
     let names: Vec<String> = benign_props(g, n + 2)
         .into_iter()
@@ -517,18 +529,16 @@ pub fn one_of(g: &mut G, c: &Ctx, depth: usize) -> Value {
                 .enumerate()
                 .map(|(i, t)| {
                     if i == 0 && g.chance(1, 3) {
-                        json!({"type": "object", "properties": {"tag": {"type": "string", "enum": [t]}}, "required": ["tag"], "additionalProperties": false})
+                        json!({"type": "object", "properties": {"tag": {"type": "string", "enum": [t]}}, "required": ["tag"]})
                     } else {
                         let content = if g.chance(1, 3) {
                             { let cl = g.chance(1, 2); closed_object(g, c, depth + 1, vec![], cl, true) }
                         } else {
                             schema_unnamed(g, c, depth + 1)
                         };
-                        let mut o = json!({"type": "object", "properties": {"tag": {"type": "string", "enum": [t]}, "content": content}, "required": ["tag", "content"]});
-                        if close {
-                            o["additionalProperties"] = json!(false);
-                        }
-                        o
+                        // wrappers stay open: their additionalProperties:false is not
+                        // represented (known finding KF-007)
+                        json!({"type": "object", "properties": {"tag": {"type": "string", "enum": [t]}, "content": content}, "required": ["tag", "content"]})
                     }
                 })
                 .collect()
@@ -855,7 +865,6 @@ pub fn in_faithful(schema: &Value, defs: &[String]) -> bool {
             ["string"] => vals.iter().all(|v| v.is_string()),
             ["integer"] => vals.iter().all(|v| v.is_i64() || v.is_u64()),
             ["number"] => vals.iter().all(|v| v.is_number()),
-            ["boolean"] => vals.iter().all(|v| v.is_boolean()),
             _ => false,
         };
     }
@@ -976,4 +985,191 @@ fn break_alias_cycles_quiet(defs: &mut Map<String, Value>) {
             cur = next;
         }
     }
+}
+
+// ---------------------------------------------------------------------------
+// reference graph helpers
+
+pub fn refs_in(v: &Value, out: &mut std::collections::BTreeSet<String>) {
+    match v {
+        Value::Object(o) => {
+            if let Some(r) = o.get("$ref").and_then(|r| r.as_str()) {
+                if let Some(n) = r.strip_prefix("#/definitions/") {
+                    out.insert(n.to_string());
+                }
+            }
+            o.values().for_each(|c| refs_in(c, out));
+        }
+        Value::Array(a) => a.iter().for_each(|c| refs_in(c, out)),
+        _ => {}
+    }
+}
+
+/// def -> defs reachable through references (transitive)
+pub fn reachability(doc: &Value) -> std::collections::BTreeMap<String, std::collections::BTreeSet<String>> {
+    use std::collections::{BTreeMap, BTreeSet};
+    let mut direct: BTreeMap<String, BTreeSet<String>> = BTreeMap::new();
+    if let Some(defs) = doc.get("definitions").and_then(|d| d.as_object()) {
+        for (k, v) in defs {
+            let mut s = BTreeSet::new();
+            refs_in(v, &mut s);
+            direct.insert(k.clone(), s);
+        }
+    }
+    let mut reach = direct.clone();
+    loop {
+        let mut changed = false;
+        for k in direct.keys() {
+            let cur: Vec<String> = reach[k].iter().cloned().collect();
+            for m in cur {
+                if let Some(more) = direct.get(&m) {
+                    for x in more.clone() {
+                        if reach.get_mut(k).unwrap().insert(x) {
+                            changed = true;
+                        }
+                    }
+                }
+            }
+        }
+        if !changed {
+            break;
+        }
+    }
+    reach
+}
+
+/// Visit every object schema with `properties` inside definition `def`;
+/// f(def name, object schema).
+pub fn for_each_object_schema(v: &mut Value, f: &mut dyn FnMut(&mut Map<String, Value>)) {
+    match v {
+        Value::Object(o) => {
+            if o.get("properties").map(|p| p.is_object()).unwrap_or(false) {
+                f(o);
+            }
+            for (_, c) in o.iter_mut() {
+                for_each_object_schema(c, f);
+            }
+        }
+        Value::Array(a) => a.iter_mut().for_each(|c| for_each_object_schema(c, f)),
+        _ => {}
+    }
+}
+
+/// Optional (non-required) properties whose schema is a bare reference that
+/// closes a cycle: (definition, property) pairs.
+pub fn optional_cyclic_refs(doc: &Value) -> Vec<(String, String)> {
+    let reach = reachability(doc);
+    let mut out = vec![];
+    let Some(defs) = doc.get("definitions").and_then(|d| d.as_object()) else { return out };
+    for (dname, d) in defs {
+        let mut d2 = d.clone();
+        for_each_object_schema(&mut d2, &mut |o| {
+            let required: Vec<String> = o.get("required").and_then(|r| r.as_array()).map(|a| a.iter().filter_map(|x| x.as_str().map(|s| s.to_string())).collect()).unwrap_or_default();
+            if let Some(ps) = o.get("properties").and_then(|p| p.as_object()) {
+                for (pn, ps) in ps {
+                    if required.contains(pn) {
+                        continue;
+                    }
+                    if let Some(t) = ps.get("$ref").and_then(|r| r.as_str()).and_then(|r| r.strip_prefix("#/definitions/")) {
+                        if t == dname || reach.get(t).map(|s| s.contains(dname)).unwrap_or(false) {
+                            out.push((dname.clone(), pn.clone()));
+                        }
+                    }
+                }
+            }
+        });
+    }
+    out
+}
+
+/// KF-004 exclusion: make such properties explicitly nullable.
+pub fn make_optional_cyclic_refs_nullable(doc: &mut Value) -> u64 {
+    let hits = optional_cyclic_refs(doc);
+    if hits.is_empty() {
+        return 0;
+    }
+    let reach = reachability(doc);
+    let mut n = 0;
+    let Some(defs) = doc.get_mut("definitions").and_then(|d| d.as_object_mut()) else { return 0 };
+    for (dname, d) in defs.iter_mut() {
+        for_each_object_schema(d, &mut |o| {
+            let required: Vec<String> = o.get("required").and_then(|r| r.as_array()).map(|a| a.iter().filter_map(|x| x.as_str().map(|s| s.to_string())).collect()).unwrap_or_default();
+            if let Some(ps) = o.get_mut("properties").and_then(|p| p.as_object_mut()) {
+                for (pn, ps) in ps.iter_mut() {
+                    if required.contains(pn) {
+                        continue;
+                    }
+                    let t = ps.get("$ref").and_then(|r| r.as_str()).and_then(|r| r.strip_prefix("#/definitions/")).map(|s| s.to_string());
+                    if let Some(t) = t {
+                        if &t == dname || reach.get(&t).map(|s| s.contains(dname)).unwrap_or(false) {
+                            *ps = json!({"oneOf": [ps.clone(), {"type": "null"}]});
+                            n += 1;
+                        }
+                    }
+                }
+            }
+        });
+    }
+    n
+}
+
+/// Is the document inside the enforced grammar E? (F restricted to
+/// constraints typify represents, plus typed/untyped `not:{enum}` deny lists.)
+pub fn doc_in_enforced(doc: &Value) -> bool {
+    fn strip_not(v: &Value) -> Option<Value> {
+        // rewrite deny lists into plain typed strings for the F check
+        match v {
+            Value::Object(o) => {
+                let mut m = Map::new();
+                for (k, c) in o {
+                    if k == "not" {
+                        let e = c.get("enum")?.as_array()?;
+                        if e.is_empty() || !c.as_object()?.keys().all(|k| k == "enum") || !e.iter().all(|x| x.is_string()) {
+                            return None;
+                        }
+                        if !o.keys().all(|k| k == "not" || k == "type") {
+                            return None;
+                        }
+                        continue;
+                    }
+                    m.insert(k.clone(), strip_not(c)?);
+                }
+                if o.contains_key("not") && !m.contains_key("type") {
+                    m.insert("type".into(), json!("string"));
+                }
+                Some(Value::Object(m))
+            }
+            Value::Array(a) => Some(Value::Array(a.iter().map(strip_not).collect::<Option<Vec<_>>>()?)),
+            x => Some(x.clone()),
+        }
+    }
+    fn only_enforced(v: &Value) -> bool {
+        match v {
+            Value::Object(o) => {
+                if o.contains_key("format") || o.contains_key("minimum") || o.contains_key("uniqueItems") || o.contains_key("anyOf") || o.contains_key("allOf") {
+                    return false;
+                }
+                if let Some(Value::Array(_)) = o.get("type") {
+                    return false;
+                }
+                if o.get("type") == Some(&json!("number")) && !o.contains_key("enum") {
+                    return false;
+                }
+                if o.is_empty() {
+                    return false; // the any-schema enforces nothing
+                }
+                if let Some(ap) = o.get("additionalProperties") {
+                    if ap.is_object() {
+                        return false;
+                    }
+                }
+                o.iter().all(|(k, c)| k == "enum" || k == "required" || only_enforced(c))
+            }
+            Value::Array(a) => a.iter().all(only_enforced),
+            Value::Bool(_) => true,
+            _ => true,
+        }
+    }
+    let Some(stripped) = strip_not(doc) else { return false };
+    doc_in_faithful(&stripped) && doc.get("definitions").map(only_enforced).unwrap_or(false)
 }
